@@ -13,7 +13,7 @@ TRUSTED_COMMON = [
     "translator /verif/tools/extract.py: the Lean text it emits for method.rs / condensed.rs / lib.rs tables / reset bodies / capi / headers / Go means what the source fragment means",
     "correspondence check (/verif/harness + lean driver): differential testing of the hand-modelled loops and bookkeeping against the real crate, bit patterns compared; bounded by the generated inputs reported here",
     "theorems are over an abstract number type with the laws named in their hypotheses; that non-NaN IEEE floats in the safe magnitude range satisfy those laws is trusted — and TESTED on every run: the executable kodama-laws (lean/Kodama/LawsSample.lean) evaluates every float-facing law-bundle field on grids of ~400 Float and Float32 values (special values, 1-3 ulp neighbours, magnitudes) and a law expected to hold that fails there is reported like a broken obligation (coverage.float_law_samples)",
-    "modelled, not verified: slice::sort_by is a stable sort; find() without path compression returns what the compressing find returns",
+    "modelled, not verified: slice::sort_by is a stable sort. (find(): the theorems use a model without path compression; Props/C01Compress.lean proves that the faithful compressing model Model/UnionFindC.lean yields the same dendrogram, and the faithful model's parents array is compared with the real LinkageUnionFind after every operation in the uf unit session)",
 ]
 
 INFO = {}
